@@ -467,6 +467,33 @@ rand_vec(std::size_t n, uint64_t seed, double lo, double hi, double p_zero = 0.)
   return v;
 }
 
+// Which views does the library's non-TOF sensitivity back projector (a clone set up with the non-TOF ProjDataInfo,
+// hence with its view/segment symmetries switched on again) put into each subset, compared with the TOF projectors?
+bool
+nontof_sens_subsets_differ(const shared_ptr<ProjDataInfo>& pdi, const shared_ptr<VoxelsOnCartesianGrid<float>>& image, const json& m,
+                           const vp::MatrixOpts& mopts, const int ms, const int N)
+{
+  auto owners = [&](const shared_ptr<ProjDataInfo>& p) {
+    ProjectorByBinPairUsingProjMatrixByBin pair(
+        vp::make_matrix(mopts, m["s90"], m["s180"], m["swap_seg"], m["swap_s"], m["shift_z"], false, false));
+    if (pair.set_up(p, image) != Succeeded::yes)
+      error("projector pair set_up failed");
+    const DataSymmetriesForViewSegmentNumbers& sym = *pair.get_symmetries_used();
+    std::map<std::pair<int, int>, int> o;
+    std::vector<ViewSegmentNumbers> rel;
+    for (int S = 0; S < N; ++S)
+      for (const ViewSegmentNumbers& vs : detail::find_basic_vs_nums_in_subset(*p, sym, -ms, ms, S, N))
+        {
+          sym.get_related_view_segment_numbers(rel, vs);
+          for (const ViewSegmentNumbers& r : rel)
+            o[std::make_pair(r.segment_num(), r.view_num())] = S;
+        }
+    return o;
+  };
+  shared_ptr<ProjDataInfo> pdi0 = pdi->create_non_tof_clone();
+  return owners(pdi) != owners(pdi0);
+}
+
 void
 build_ctx(const json& c, Ctx& x)
 {
@@ -524,23 +551,7 @@ build_ctx(const json& c, Ctx& x)
         }
   }
   if (x.have_P0 && x.N > 1)
-    { // which views does the library's non-TOF sensitivity back projector (a clone set up with the non-TOF
-      // ProjDataInfo, hence with its view/segment symmetries switched on again) put into each subset?
-      ProjectorByBinPairUsingProjMatrixByBin pair0(matrix_under_test(x));
-      shared_ptr<ProjDataInfo> pdi0 = x.pdi->create_non_tof_clone();
-      if (pair0.set_up(pdi0, x.proto) != Succeeded::yes)
-        error("projector pair set_up failed");
-      const DataSymmetriesForViewSegmentNumbers& sym0 = *pair0.get_symmetries_used();
-      std::vector<ViewSegmentNumbers> rel;
-      for (int S = 0; S < x.N; ++S)
-        for (const ViewSegmentNumbers& vs : detail::find_basic_vs_nums_in_subset(*pdi0, sym0, -x.ms, x.ms, S, x.N))
-          {
-            sym0.get_related_view_segment_numbers(rel, vs);
-            for (const ViewSegmentNumbers& r : rel)
-              if (owner_vs[std::make_pair(r.segment_num(), r.view_num())] != S)
-                x.sens_subsets_mismatch = true;
-          }
-    }
+    x.sens_subsets_mismatch = nontof_sens_subsets_differ(x.pdi, x.proto, x.msw, x.mopts, x.ms, x.N);
   auto fill_geom = [&](const vp::ExplicitP& P, std::vector<char>& z, std::vector<int>& owner) {
     z.assign(std::size_t(P.nbins()), 0);
     owner.assign(std::size_t(P.nbins()), -1);
@@ -894,11 +905,7 @@ run_op(Obj& o, const Ctx& x, RefCache& rc, const int kind, const int S, Results&
           ok = o.add_multiplication_with_approximate_Hessian_without_penalty(*out, *x.v_im);
         VF_CHECK(ok == Succeeded::yes, who, ": ", kind_name[kind], " returned Succeeded::no");
         got.im = P.image_to_vec(*out);
-        // F4 (work/notes/C05_findings.md): the penalised Hessian forms hand 'output' instead of 'input' to the prior;
-        // excluded by construction unless VERIF_NO_EXCLUDE is set
-        if (has_prior && !no_exclude())
-          stats().count("excluded request: penalised Hessian forms (F4)");
-        if (has_prior && no_exclude())
+        if (has_prior)
           {
             shared_ptr<Target> out2(x.out0_im->clone());
             if (kind == HESS_S)
@@ -1047,30 +1054,23 @@ struct OpList
   std::vector<std::pair<int, int>> ops; // (kind, subset or -1)
 };
 
-// which requests are excluded by construction because of confirmed findings (see work/notes/C05_findings.md)
+// Known findings (decided by the lead, work/notes/C05_findings.md): F3 Hessian requests ignore zero_seg0_end_planes,
+// F5 subset sensitivities of TOF data with the non-TOF sensitivity projector use other views than the subset.
+// Cases whose OWN request list contains such a request are skipped as a whole through known_signature(); the
+// requests the harness adds itself (sum over subsets, all first-use orders) are skipped here.
 bool
 excluded_op(const Ctx& x, const int kind)
 {
   if (no_exclude())
     return false;
-  if (is_hessian(kind) && x.tof)
-    {
-      stats().count("excluded request: Hessian with TOF data (L5)");
-      return true;
-    }
   if (kind == SENS_S && x.sens_subsets_mismatch && x.use_subset_sens)
     {
-      stats().count("excluded request: subset sensitivity, TOF data + non-TOF sensitivity projector with other subsets (F5)");
-      return true;
-    }
-  if (base_kind(kind) == SENS_S && x.tof && x.tofsens_eff && x.zero_ends && x.norm_kind == 0)
-    {
-      stats().count("excluded request: TOF sensitivity with zero_seg0_end_planes and trivial normalisation (F6)");
+      stats().count("skipped harness-added request: subset sensitivity, known finding C05:tof:nontof-subset-sensitivity:view-symmetries");
       return true;
     }
   if (is_hessian(kind) && x.zero_ends)
     {
-      stats().count("excluded request: Hessian with zero_seg0_end_planes (F3)");
+      stats().count("skipped harness-added request: Hessian, known finding C05:hessian:zero_seg0_end_planes");
       return true;
     }
   return false;
@@ -1145,8 +1145,7 @@ run_sequence(const Ctx& x, RefCache& rc, const OpList& l, const int mem_fill, co
         stats().maxi("rel err (gradient+sensitivity) - gradient vs sensitivity", d / std::max(sc, 1e-30));
         VF_CHECK(d <= TOL_REF * sc + 1e-30, who, ": (gradient+sensitivity) - gradient differs from the sensitivity of subset ", S, " by ", d, " (magnitude ",
                  sc, ")");
-        const bool f6 = x.tof && x.tofsens_eff && x.zero_ends && x.norm_kind == 0 && !no_exclude();
-        if ((x.use_subset_sens || x.N == 1) && !f6)
+        if (x.use_subset_sens || x.N == 1)
           {
             const std::vector<double> lib = x.P.image_to_vec(o.get_subset_sensitivity(S));
             const double d2 = max_abs_diff(diff, lib);
@@ -1205,14 +1204,7 @@ check(const json& c)
     }
   } guard;
   const int sens_source = c["sens_source"]; // 0: computed in set_up, 1: read from files (recompute_sensitivity=false)
-  int mem_fill = c["mem_fill"];
-  if (sens_source == 1 && mem_fill != 0 && !no_exclude())
-    { // L5b: latest_setup_distributable_computation_was_with_orig_projectors is never initialised; when no sensitivity
-      // is computed and the member happens to be 'true' the first value request calls error(). Excluded narrowly:
-      // objects without sensitivity computation are only built in zero-filled memory.
-      mem_fill = 0;
-      stats().count("excluded: uninitialised-flag pattern with sensitivities read from file (L5b)");
-    }
+  const int mem_fill = c["mem_fill"];
   RefCache rc;
   std::string dir;
   if (sens_source == 1)
@@ -1513,6 +1505,74 @@ gen_config(Src& s, int size, int force_tof /* -1 free, 0 no, 1 yes */)
   return c;
 }
 
+// ---- known findings: the input classes, as predicates on the Case ---------------------------------
+inline int
+op_kind(const json& o)
+{
+  return int(((o[0].get<long>() % NUM_KINDS) + NUM_KINDS) % NUM_KINDS);
+}
+bool
+ops_have_hessian(const json& c)
+{
+  if (c.value("all_orders", false))
+    return true;
+  for (const json& o : c["ops"])
+    if (is_hessian(op_kind(o)))
+      return true;
+  return false;
+}
+bool
+ops_have_subset_sens(const json& c)
+{
+  if (c.value("all_orders", false))
+    return true;
+  for (const json& o : c["ops"])
+    if (op_kind(o) == SENS_S)
+      return true;
+  return false;
+}
+// configuration part of F5: TOF data, non-TOF sensitivities, subset sensitivities, >1 subset, and the non-TOF
+// sensitivity projector forms other subsets than the TOF projectors
+bool
+f5_config(const json& c)
+{
+  if (c["pdi"]["tof_mash"].get<int>() <= 0 || c["use_tofsens"].get<bool>() || !c["use_subset_sens"].get<bool>() || c["num_subsets"].get<int>() < 2)
+    return false;
+  if (c["norm"].get<int>() > 0 && c["norm_tof"].get<bool>())
+    return false; // TOF norm data switch TOF sensitivities on
+  try
+    {
+      shared_ptr<Scanner> sc = vg::make_scanner(c["scanner"]);
+      shared_ptr<ProjDataInfo> pdi = vg::make_pdi(sc, c["pdi"]);
+      if (!pdi->is_tof_data())
+        return false;
+      shared_ptr<VoxelsOnCartesianGrid<float>> im = vg::make_image(c["image"], *pdi, 7);
+      vp::MatrixOpts mo;
+      mo.num_tangential_LORs = c["matrix"]["num_tangential_LORs"];
+      mo.restrict_to_cylindrical_FOV = c["matrix"]["restrict_to_cylindrical_FOV"];
+      const int max_seg = c["max_seg"];
+      const int ms = (max_seg < 0) ? pdi->get_max_segment_num() : std::min(max_seg, pdi->get_max_segment_num());
+      return nontof_sens_subsets_differ(pdi, im, c["matrix"], mo, ms, c["num_subsets"]);
+    }
+  catch (const std::exception&)
+    {
+      return false;
+    }
+}
+
+// signature of the known-finding class a case belongs to ("" = none; always "" when VERIF_NO_EXCLUDE is set)
+std::string
+known_signature(const json& c)
+{
+  if (no_exclude())
+    return "";
+  if (c["zero_ends"].get<bool>() && ops_have_hessian(c))
+    return "C05:hessian:zero_seg0_end_planes";
+  if (ops_have_subset_sens(c) && f5_config(c))
+    return "C05:tof:nontof-subset-sensitivity:view-symmetries";
+  return "";
+}
+
 // development/triage aid: VERIF_C05_FORCE='{"zero_ends":false,"force_tof":0,...}' overrides generated fields
 const json&
 forced()
@@ -1545,6 +1605,23 @@ gen(Src& s, int size)
   const int extra = int(s.range(0, 4));
   for (int i = 0; i < extra; ++i)
     ops.push_back(json::array({ int(s.range(0, NUM_KINDS - 1)), int(s.range(0, 63)) }));
+  // known findings F3/F5: most affected configurations get request lists WITHOUT the affected request kind, so that
+  // everything else is still checked on them; the remaining quarter is the excluded class (known_signature)
+  const bool keep_f3 = s.chance(1, 4), keep_f5 = s.chance(1, 4);
+  if (!no_exclude())
+    {
+      const bool f3 = c["zero_ends"].get<bool>() && !keep_f3;
+      c["ops"] = ops;
+      const bool f5 = !keep_f5 && ops_have_subset_sens(c) && f5_config(c);
+      for (json& o : ops)
+        {
+          const int k = op_kind(o);
+          if (f3 && is_hessian(k))
+            o[0] = (k == HESS_S) ? int(GRAD_S) : (k == AHESS_S) ? int(GRADSENS_S) : (k == HESS_ALL) ? int(GRAD_ALL) : int(VALUE_ALL);
+          if (f5 && k == SENS_S)
+            o[0] = int(SENS_ALL);
+        }
+    }
   c["ops"] = ops;
   for (auto it = forced().begin(); it != forced().end(); ++it)
     if (it.key() != "force_tof")
@@ -1568,6 +1645,9 @@ enumerate(uint64_t idx, int tier, json& c)
   c["sum_check"] = false;
   c["threshold_class"] = false;
   c["ops"] = json::array();
+  c["zero_ends"] = false; // known finding F3 (all orders contain Hessian requests)
+  if (f5_config(c))
+    c["use_tofsens"] = true; // known finding F5 (all orders contain subset-sensitivity requests)
   return true;
 }
 
@@ -1605,5 +1685,6 @@ the_property()
   p.nontrivial = nontrivial;
   p.enumerate = enumerate;
   p.shrink_lists = { "ops" };
+  p.known_signature = known_signature;
   return p;
 }
